@@ -253,3 +253,74 @@ Proof.
   repeat (destruct Hc as [Hc|Hc]; [subst n; match goal with |- context [mask_bytes _ ?k] => solve_shape k end|]).
   subst n. solve_shape 31.
 Qed.
+
+Local Transparent N.land N.mul N.add N.div N.pow.
+
+(* ------------------------------------------------------------------ *)
+(* what inet_aton returns                                              *)
+
+Lemma take_num_nonneg : forall ok base s acc, 0 <= base -> 0 <= acc -> 0 <= fst (take_num ok base acc s).
+Proof.
+  intros ok base. induction s as [|c r IH]; intros acc Hb Ha; simpl; [exact Ha|].
+  destruct (ok c); [|exact Ha]. apply IH; [exact Hb|]. assert (0 <= Z.of_N (nibble c)) by lia. nia.
+Qed.
+
+Lemma strtoul0_nonneg : forall s, 0 <= fst (strtoul0 s).
+Proof.
+  intro s. unfold strtoul0.
+  destruct s as [|c0 [|x [|h r]]]; try (apply take_num_nonneg; lia);
+    destruct c0; try (apply take_num_nonneg; lia);
+      repeat match goal with |- context [match ?p with _ => _ end] => destruct p end; apply take_num_nonneg; lia.
+Qed.
+
+Definition byte_list (bs : list N) : Prop := Forall (fun b => (b < 256)%N) bs.
+
+Lemma be_bytes_shape : forall k v, 0 <= v -> List.length (be_bytes k v) = k /\ byte_list (be_bytes k v).
+Proof.
+  intros k v Hv. unfold be_bytes. split; [rewrite map_length, rev_length, seq_length; reflexivity|].
+  apply Forall_forall. intros b Hb. apply in_map_iff in Hb. destruct Hb as [j [<- _]].
+  assert (0 <= (v / 256 ^ Z.of_nat j) mod 256 < 256) by (apply Z.mod_pos_bound; lia). lia.
+Qed.
+
+Lemma aton_go_shape : forall fuel s parts bs,
+    aton_go fuel s parts = AtonOk bs -> byte_list parts -> (List.length parts <= 3)%nat ->
+    List.length bs = 4%nat /\ byte_list bs.
+Proof.
+  induction fuel as [|f IH]; intros s parts bs E Hp Hl; [discriminate|].
+  rewrite aton_go_S in E. destruct s as [|c s']; [discriminate|].
+  destruct (negb (is_digit c)); [discriminate|].
+  pose proof (strtoul0_nonneg (c :: s')) as Hnn.
+  destruct (strtoul0 (c :: s')) as [val rest]. simpl in Hnn.
+  destruct (4294967295 <? val); [discriminate|].
+  assert (Hend : forall tr, (if negb tr then AtonFail
+                             else let n := List.length parts in
+                                  let mx := match n with O => 4294967295 | 1%nat => 16777215 | 2%nat => 65535 | _ => 255 end in
+                                  if mx <? val then AtonFail else AtonOk (parts ++ be_bytes (4 - n) val)%list) = AtonOk bs ->
+                            List.length bs = 4%nat /\ byte_list bs).
+  { intros tr Et. destruct (negb tr); [discriminate|]. cbv zeta in Et.
+    match type of Et with (if ?c then _ else _) = _ => destruct c end; [discriminate|]. inversion Et; subst bs.
+    destruct (be_bytes_shape (4 - List.length parts) val Hnn) as [Lb Bb].
+    split; [rewrite app_length, Lb; lia | apply Forall_app; split; assumption]. }
+  destruct rest as [|d rest'].
+  - apply (Hend true). exact E.
+  - destruct (N.eq_dec d 46) as [->|Hd].
+    + destruct ((2 <? List.length parts)%nat || (255 <? val)) eqn:Ec; [discriminate|].
+      apply orb_false_iff in Ec. destruct Ec as [Ec1 Ec2]. apply Nat.ltb_ge in Ec1. apply Z.ltb_ge in Ec2.
+      apply (IH rest' (parts ++ [Z.to_N val])%list bs E).
+      * apply Forall_app. split; [exact Hp | constructor; [lia | constructor]].
+      * rewrite app_length. simpl. lia.
+    + apply (Hend ((d <? 128)%N && c_isspace d)).
+      destruct d as [|p]; [exact E|].
+      repeat (destruct p as [p|p|]; try exact E); try (exfalso; apply Hd; reflexivity).
+Qed.
+
+Lemma inet_aton_shape : forall s bs, inet_aton s = AtonOk bs ->
+    exists b0 b1 b2 b3, bs = [b0; b1; b2; b3] /\ (b0 < 256)%N /\ (b1 < 256)%N /\ (b2 < 256)%N /\ (b3 < 256)%N.
+Proof.
+  intros s bs E. unfold inet_aton in E. destruct (existsb (fun c => (c =? 0)%N) s); [discriminate|].
+  destruct (aton_go_shape 5 s [] bs E (Forall_nil _)) as [Hl Hb]; [simpl; lia|].
+  destruct bs as [|b0 [|b1 [|b2 [|b3 [|b4 r]]]]]; try discriminate Hl.
+  inversion Hb as [|x0 l0 B0 Hb1]; subst. inversion Hb1 as [|x1 l1 B1 Hb2]; subst.
+  inversion Hb2 as [|x2 l2 B2 Hb3]; subst. inversion Hb3 as [|x3 l3 B3 _]; subst.
+  exists b0, b1, b2, b3. auto.
+Qed.
